@@ -471,3 +471,65 @@ func VerifC05_OpenQueryAcrossUnregister() {
 	vcheck("unlocked-after-exhaustion", !W.w.IsLocked())
 	vreach("end")
 }
+
+// ---- the filter builder API produces the filter the model assumes (With / Without /
+// Exclusive / Relations on typed filters, Without / Exclusive on unsafe filters)
+func VerifC03_FilterBuilders() {
+	W := vShapeFor(1)
+	var with, without bitMask
+	with.Set(W.id[cA].id)
+	f := NewFilter1[vPos](W.w)
+	if vPick("with", 2) == 1 {
+		f.With(C[vChild](), C[vVel]())
+		with.Set(W.id[cR1].id)
+		with.Set(W.id[cB].id)
+	}
+	excl := vPick("excl", 3)
+	switch excl {
+	case 1:
+		f.Without(C[vTag](), C[vPtrC]())
+		without.Set(W.id[cT].id)
+		without.Set(W.id[cP].id)
+	case 2:
+		f.Exclusive()
+		without = with.Not()
+	}
+	vcheck("typed/with-mask", vMaskEq(&f.filter.mask, &with))
+	vcheck("typed/without-mask", f.filter.hasWithout == (excl != 0) && (excl == 0 || vMaskEq(&f.filter.without, &without)))
+	// the unsafe filter with the same lists is the same filter
+	ids := []ID{W.id[cA]}
+	if with.Get(W.id[cB].id) {
+		ids = append(ids, W.id[cR1], W.id[cB])
+	}
+	uf := NewUnsafeFilter(W.w, ids...)
+	switch excl {
+	case 1:
+		uf = uf.Without(W.id[cT], W.id[cP])
+	case 2:
+		uf = uf.Exclusive()
+	}
+	vcheck("unsafe/same-filter", vMaskEq(&uf.filter.mask, &f.filter.mask) && uf.filter.hasWithout == f.filter.hasWithout &&
+		(!f.filter.hasWithout || vMaskEq(&uf.filter.without, &f.filter.without)))
+	// both yield the same entities as the model of that filter
+	q := &vQuerySpec{f: filter{mask: with, without: without, hasWithout: excl != 0, cache: maxCacheID}}
+	vTypedCount := 0
+	qq := f.Query()
+	for qq.Next() {
+		vTypedCount++
+	}
+	vUnsafeCount := 0
+	uq := uf.Query()
+	for uq.Next() {
+		vUnsafeCount++
+	}
+	n := 0
+	for j := 0; j < W.n; j++ {
+		if W.matches(j, q) {
+			n++
+		}
+	}
+	vcheck("builders/same-result-as-model", vTypedCount == n && vUnsafeCount == n)
+	// modifying a filter after it was queried or registered is rejected
+	vcheck("modify-after-query-rejected", vpanics(func() { f.With(C[vTag]()) }))
+	vreach("end")
+}
